@@ -138,8 +138,9 @@ Independent ==
      /\ (f \in sent => ents[f] = inst.e0[f])
 
 \* a skip always has a reason: some (transitive) dependency really failed or was skipped itself
+\* (whether the loader learns about the failure from a Go error or from the merge is its business)
 SkipJustified ==
-  \A f \in Ids : st[f] = "skipped" => \E a \in Anc(f) : st[a] \in {"skipped", "loadedErr", "failed"} /\ a \in errored
+  \A f \in Ids : st[f] = "skipped" => \E a \in Anc(f) : st[a] \in {"skipped", "loadedErr", "failed"}
 
 \* every failed request is reported at least once; a successful one reports nothing
 ErrorReportedPerFetch == \A f \in Ids : (st[f] \in {"failed", "partial"} => rep[f] >= 1) /\ (st[f] \in {"merged", "empty"} => rep[f] = 0)
